@@ -385,3 +385,29 @@ Proof.
   destruct (find_child q_ok root) eqn:F; [split; reflexivity|].
   apply find_child_ok in F. congruence.
 Qed.
+
+(* ---------- [lower] is ASCII case folding ---------- *)
+Definition ci_eq (c d : N) : Prop :=
+  c = d \/ (65 <= c <= 90 /\ d = c + 32) \/ (65 <= d <= 90 /\ c = d + 32).
+
+Lemma lower_byte_ci c d : lower_byte c = lower_byte d <-> ci_eq c d.
+Proof.
+  unfold lower_byte, ci_eq.
+  destruct (65 <=? c) eqn:C1; destruct (c <=? 90) eqn:C2; destruct (65 <=? d) eqn:D1; destruct (d <=? 90) eqn:D2;
+    cbn [andb];
+    repeat match goal with
+           | H : (_ <=? _) = true |- _ => apply N.leb_le in H
+           | H : (_ <=? _) = false |- _ => apply N.leb_gt in H
+           end; lia.
+Qed.
+
+Lemma lower_ci a : forall b, lower a = lower b <-> Forall2 ci_eq a b.
+Proof.
+  induction a as [|c a IH]; intros [|d b]; cbn.
+  - split; [constructor|reflexivity].
+  - split; [discriminate|intros H; inversion H].
+  - split; [discriminate|intros H; inversion H].
+  - split.
+    + intros H. injection H as H1 H2. constructor; [now apply lower_byte_ci|now apply IH].
+    + intros H. inversion H as [|? ? ? ? H1 H2]; subst. f_equal; [now apply lower_byte_ci|now apply IH].
+Qed.
